@@ -381,3 +381,4 @@ H("C12", "html/layout", "VxH_C02_nested_padding", mode="real", reach=["laid-out"
 H("C13", "html/layout", "VxH_C13_auto_span_min", mode="real", reach=["laid-out"], bounds="auto layout in a container of symbolic width [20,300]: a colspan-2 cell with symbolic horizontal padding [0,80] over two cells of symbolic width [0,200]", quick={"maxsteps": 150000000, "shards": 4})
 H("C14", "utils", "VxH_C14_metadata", reach=["extracted", "not-a-standard-name"], bounds="<meta name> among 11 spellings (ASCII case variants, U+212A / U+0130 / U+017F look-alikes, other names) x 2 contents")
 H("C19", "html/boxes", "VxH_C19_descriptors_from_css", reach=["built"], bounds="@counter-style (numeric over ten letters) with negative: prefix suffix / prefix only, range: infinite 5 / 0 infinite; counter value in {-12, -2, 3, 7}", quick={"maxsteps": 100000000})
+H("C04", "html/tree", "VxH_C04_image_orientation", reach=["computed"], bounds="image-orientation of -6..6 quarter turns")
